@@ -50,6 +50,16 @@ nni_time_get(uint64_t *sec, uint32_t *nsec)
 
 #if defined(NNG_HAVE_CLOCK_GETTIME) && !defined(NNG_USE_GETTIMEOFDAY)
 
+#ifdef NNG_VERIF
+nni_time
+nni_verif_real_clock(void)
+{
+	struct timespec ts;
+	(void) clock_gettime(NNG_USE_CLOCKID, &ts);
+	return (((nni_time) ts.tv_sec) * 1000 + (ts.tv_nsec / 1000000));
+}
+#endif
+
 // Use POSIX realtime stuff
 nni_time
 nni_clock(void)
@@ -57,6 +67,11 @@ nni_clock(void)
 	struct timespec ts;
 	nni_time        msec;
 
+#ifdef NNG_VERIF
+	if (nni_verif.clock != NULL) {
+		return (nni_verif.clock());
+	}
+#endif
 	if (clock_gettime(NNG_USE_CLOCKID, &ts) != 0) {
 		// This should never ever occur.
 		nni_panic("clock_gettime failed: %s", strerror(errno));
